@@ -197,6 +197,15 @@ theorem interpN_grid (s : State K) (n : ℕ) (m : String) (ext : List K)
     simp [ok, ofFn, hi]
   · rw [h2] at hok; simp [fail] at hok
 
+/-- for `n ≥ 2` the new grid spans the same range: same first and last point -/
+theorem interpN_endpoints (s : State K) (n : ℕ) (m : String) (ext : List K) (hn : 2 ≤ n)
+    (hok : (step s (.interpN n m ext)).err = none) :
+    (step s (.interpN n m ext)).state.x.headD 0 = s.x.headD 0 ∧
+    (step s (.interpN n m ext)).state.x.getLastD 0 = s.x.getLastD 0 := by
+  rw [(interpN_grid s n m ext hok).1, ofFn_headD _ _ (by omega), ofFn_getLastD _ _ (by omega),
+    Process.linspaceAt_first, Process.linspaceAt_last _ _ n hn]
+  exact ⟨rfl, rfl⟩
+
 /-- `interpolate(new_x=…)`: a grid with a different first or last point is rejected with
 `ValueError` and the state is left unchanged -/
 theorem interpX_grid_mismatch (s : State K) (newX : List K) (m : String) (ext : List K)
